@@ -970,7 +970,10 @@ class Interp:
                 if _is_list_subclass(a.cls):
                     return len(a.attrs.get('__items__', []))
                 raise Raised(ExcVal('TypeError', ('object has no len()',)))
-            return len(a)
+            try:
+                return len(a)
+            except TypeError as e:
+                raise Raised(ExcVal('TypeError', (str(e),)))
         if d in ('builtins.any', 'builtins.all'):
             want = d.endswith('any')
             for x in self.iterate(args[0]):
